@@ -31,12 +31,17 @@ SEEDS = {
  "S26-indexopt-reserve-allocates": ("C19 (round 2)", "IndexOptimized::reserve guard `!self.is_empty()` instead of `!self.spilled.is_empty()`", "reserve / extend on a non-empty, purely strided container allocates the spill vector: capacity becomes non-zero while used stays 0"),
 }
 results = {}
-p = os.path.join(V, ".cache", "seedlogs", "summary.txt")
-if os.path.exists(p):
+# later files / lines override earlier ones for the same (seed, check): checks were strengthened between passes
+for fn in ("summary.txt", "summary2.txt", "summary3.txt", "summary4.txt"):
+    p = os.path.join(V, ".cache", "seedlogs", fn)
+    if not os.path.exists(p):
+        continue
     for l in open(p):
         m = re.match(r"(S\d\d\S+) (C\d\d) exit=(\d+) (\d+) violation line\(s\): (.*)", l.strip())
         if m:
-            results.setdefault(m.group(1), []).append(dict(check=m.group(2), exit=int(m.group(3)), violation_lines=int(m.group(4)), first=m.group(5)[:300]))
+            d = results.setdefault(m.group(1), {})
+            d[m.group(2)] = dict(check=m.group(2), exit=int(m.group(3)), violation_lines=int(m.group(4)), first=m.group(5)[:300])
+results = {k: list(v.values()) for k, v in results.items()}
 for name, (prop, change, needs) in SEEDS.items():
     d = os.path.join(V, "seeded", name)
     if not os.path.isdir(d):
